@@ -154,6 +154,34 @@ def measure(cls, val, depth=1):
     return mx, ml, md
 
 
+def scribble(o, depth=0):
+    """Overwrite every field of a decoded message (recursively) with a different value."""
+    if dataclasses.is_dataclass(o) and not isinstance(o, type):
+        for f in dataclasses.fields(o):
+            v = getattr(o, f.name, None)
+            if dataclasses.is_dataclass(v) or isinstance(v, list):
+                scribble(v, depth + 1)
+            try:
+                if isinstance(v, bool) or v is None:
+                    continue
+                if isinstance(v, int):
+                    object.__setattr__(o, f.name, type(v)(int(v) ^ 1) if not isinstance(v, enum.IntEnum) else v)
+                elif isinstance(v, (bytes, str)):
+                    object.__setattr__(o, f.name, v[:0])
+            except Exception:  # noqa: BLE001
+                pass
+        if hasattr(o, "_value"):
+            try:
+                o._value = b"\xee"
+            except Exception:  # noqa: BLE001
+                pass
+    elif isinstance(o, list):
+        for x in o:
+            scribble(x, depth + 1)
+        if o:
+            o.pop()
+
+
 def run_roundtrip(case, R):
     cls = BY_NAME.get(case["cls"])
     if cls is None:
@@ -189,6 +217,16 @@ def run_roundtrip(case, R):
         return
     if back != obj:
         R.fail("C16.roundtrip", f"{cls.__qualname__}: decode(encode(x)) = {back!r:.400} != x = {obj!r:.400}", **ctx)
+        return
+    # a decoded message belongs to its caller: changing it must not change what the next decode of the same bytes returns
+    scribble(back)
+    try:
+        again = cls.decode(encoded)
+    except Exception as e:  # noqa: BLE001
+        R.fail("C16.decode-raises", f"{cls.__qualname__} second decode: {type(e).__name__}: {e}", exc=type(e).__name__, **ctx)
+        return
+    if again != obj:
+        R.fail("C16.decode-shares-state", f"{cls.__qualname__}: after modifying a decoded message, decoding the same bytes again gives {again!r:.300} != {obj!r:.300}", **ctx)
 
 
 # ---------------------------------------------------------------- strategies
@@ -228,7 +266,10 @@ def field_value(draw, k, depth):
         n = draw(st.one_of(st.sampled_from(SIZES), st.integers(1, 24), st.integers(1, 700)))
         return draw(st.binary(min_size=n, max_size=n)) if n <= 24 else pat(n, draw(st.integers(0, 255)))
     if k[0] == "seq":
-        return draw(st.lists(struct_value(k[1][2], depth + 1), min_size=1, max_size=4 if depth < 2 else 2))
+        items = draw(st.lists(struct_value(k[1][2], depth + 1), min_size=1, max_size=4 if depth < 2 else 2))
+        if draw(st.integers(0, 3)) == 0:
+            items = items + [items[0]]          # byte-identical neighbours are legal (two equal configurations)
+        return items
     raise HarnessError(f"no strategy for {k}")
 
 
@@ -530,6 +571,20 @@ def run_db(case, R):
     if _strip_links(got) != _strip_links(exp):
         R.fail("C16.db-fields", f"to_dict {_strip_links(got)!r:.600} expected {_strip_links(exp)!r:.600}", what="coap-db")
         return
+    # the connection stores raw values on the decoded characteristics; a later decode of the same bytes must not see them
+    for da in db.accessories:
+        for ds in da.services:
+            for dc in ds.characteristics:
+                dc.raw_value = b"\x01"
+    try:
+        got2 = Pdu09Database.decode(raw).to_dict()
+    except Exception as e:  # noqa: BLE001
+        R.fail("C16.db-decode-raises", f"second decode: {type(e).__name__}: {e}", exc=type(e).__name__)
+        return
+    if _strip_links(got2) != _strip_links(exp):
+        R.fail("C16.decode-shares-state", f"second decode of the same database differs after raw values were stored on the first: {_strip_links(got2)!r:.400}", cls="Pdu09Database")
+        return
+    db = Pdu09Database.decode(raw)
     for a, da in zip(accs, db.accessories):
         for s, ds in zip(a["services"], da.services):
             for c, dc in zip(s["chars"], ds.characteristics):
